@@ -7,6 +7,7 @@ import YaegiVerif.Generated.C03
 import YaegiVerif.Proofs.C03Repr
 import YaegiVerif.Proofs.C03Decl
 import YaegiVerif.Proofs.C03Block
+import YaegiVerif.Proofs.C03Const
 import YaegiVerif.Model.ConstClass
 /-
   C03 — property theorems: constant expressions follow Go's exact constant semantics.
@@ -203,6 +204,49 @@ theorem iota_block_generated (F : Facts) (specs : List Spec)
     (h : ∀ j r, (Spec.resolveGo none specs)[j]? = some r → ∃ t e, r = some (t, e) ∧ SpecOk F j t e) :
     ∃ vs, blockY F Generated.C03.declFacts specs = .ok vs ∧ Spec.blockGo specs = vs.map Res.ok := by
   rw [declfacts_tie]; exact iota_block_correct F specs h
+
+/-- **`const c = e` at package level, untyped integer expressions** (integer and rune literals, iota, unary and
+    binary integer operators including shifts, parentheses; no conversions): the three walks of the declaration
+    (gta on the block, gta on the spec, cfg — the later ones with the type of the first pushed down every
+    operator) and the use of the constant yield exactly the value and default type of the specification, for every
+    `iota`, whether or not `sc.types` is still empty. (Proofs/C03Const.lean, structural induction with the pushed
+    type generalised.) -/
+theorem const_decl_correct (i : Nat) (e : CExpr) (hs : ufrag e = true) (hq : noRuneQuo i e = true)
+    (v : CV × BT) (hgo : Spec.declGo i none e = .ok v) : SpecOk Expected.C03.facts i none e := by
+  intro first
+  obtain ⟨n, m, h1, h2, h3⟩ := const_decl_stages i e hs hq v hgo first
+  exact ⟨n, m, v, h1, h2, h3, hgo⟩
+
+/-- **Blocks of untyped integer constants, end to end**: for every block length and every pattern of implicit
+    repetition, if each resolved spec is an untyped-integer expression without declared type that Go accepts with
+    `iota` = its index, the interpreter model gives the block exactly the values and default types of the
+    specification. -/
+theorem block_untyped_correct (specs : List Spec)
+    (h : ∀ j r, (Spec.resolveGo none specs)[j]? = some r →
+      ∃ e v, r = some (none, e) ∧ ufrag e = true ∧ noRuneQuo j e = true ∧ Spec.declGo j none e = .ok v) :
+    ∃ vs, blockY Expected.C03.facts Expected.C03.declFacts specs = .ok vs ∧ Spec.blockGo specs = vs.map Res.ok := by
+  apply iota_block_correct
+  intro j r hr
+  obtain ⟨e, v, hre, hs, hq, hgo⟩ := h j r hr
+  exact ⟨none, e, hre, const_decl_correct j e hs hq v hgo⟩
+
+/-- non-vacuity of the hypothesis of `block_untyped_correct`: `const ( a = 1 << iota; b; c )` -/
+example : ∃ vs, blockY Expected.C03.facts Expected.C03.declFacts
+      [.explicit none (.bin .shl (.int 1) .iota), .implicit, .implicit] = .ok vs ∧
+    Spec.blockGo [.explicit none (.bin .shl (.int 1) .iota), .implicit, .implicit] = vs.map Res.ok := by
+  apply block_untyped_correct
+  intro j r hr
+  match j, hr with
+  | 0, hr =>
+    simp [Spec.resolveGo] at hr; subst hr
+    exact ⟨_, (.int 1, .i .int), rfl, by decide, by decide, by decide⟩
+  | 1, hr =>
+    simp [Spec.resolveGo] at hr; subst hr
+    exact ⟨_, (.int 2, .i .int), rfl, by decide, by decide, by decide⟩
+  | 2, hr =>
+    simp [Spec.resolveGo] at hr; subst hr
+    exact ⟨_, (.int 4, .i .int), rfl, by decide, by decide, by decide⟩
+  | n + 3, hr => simp [Spec.resolveGo] at hr
 
 /-- non-vacuity: `const ( a = iota; b; c uint8 = 1 << iota; d; e = iota * 10 )` -/
 def exBlock : List Spec :=
